@@ -17,7 +17,11 @@ def _guard(args):
 
 
 def pmap(fn, tasks, procs=None, chunksize=1):
-    """fn(task) -> dict (Part.as_dict()). fn must be a module-level function."""
+    """fn(task) -> dict (Part.as_dict()). fn must be a module-level function. A worker process that
+    dies (killed, interpreter crash) does not hang the run: its tasks and those not yet started are
+    reported as harness errors."""
+    import concurrent.futures as cf
+    from concurrent.futures.process import BrokenProcessPool
     tasks = list(tasks)
     procs = procs or NPROC
     if procs <= 1 or len(tasks) <= 1:
@@ -25,5 +29,18 @@ def pmap(fn, tasks, procs=None, chunksize=1):
     for hook in PRE_FORK:
         hook()
     ctx = multiprocessing.get_context('fork')
-    with ctx.Pool(min(procs, len(tasks))) as pool:
-        return pool.map(_guard, [(fn, t) for t in tasks], chunksize)
+    out = [None] * len(tasks)
+    ex = cf.ProcessPoolExecutor(max_workers=min(procs, len(tasks)), mp_context=ctx)
+    try:
+        futs = [ex.submit(_guard, (fn, t)) for t in tasks]
+        for i, f in enumerate(futs):
+            try:
+                out[i] = f.result()
+            except BrokenProcessPool:
+                out[i] = {'errors': ['a worker process died while task %r was pending or running '
+                                     '(killed or interpreter crash)' % (tasks[i],)]}
+            except Exception:   # noqa
+                out[i] = {'errors': ['task %r could not be completed:\n%s' % (tasks[i], traceback.format_exc())]}
+    finally:
+        ex.shutdown(wait=False, cancel_futures=True)
+    return out
